@@ -408,6 +408,12 @@ def run_replay(path):
     rep = mod.run_case(body["case"])
     hits = [v for v in rep.violations if v["sig"] == body["sig"]]
     other = [v for v in rep.violations if v["sig"] != body["sig"]]
+    # violations of the same case that are listed as open known findings are not failures of the replay
+    known = load_known()
+    listed = [v for v in other if match_known(body["property"], v, known) is not None]
+    other = [v for v in other if match_known(body["property"], v, known) is None]
+    for kid in sorted({match_known(body["property"], v, known)["id"] for v in listed}):
+        print(f"KNOWN-FINDING: property={body['property']} {kid} (also present in this case)")
     if hits:
         print(f"REPLAY still fails: property={body['property']} {body['sig']}")
         print("  ", hits[0]["message"])
